@@ -568,12 +568,20 @@ class CONTAINS(Pat):
         return bool(found)
 
 
+def _wants_locals(pat):
+    if isinstance(pat, L):
+        return True
+    if isinstance(pat, OR):
+        return any(_wants_locals(p) for p in pat.ps)
+    return False
+
+
 def find(ctx, root, pat):
     out = []
 
     def visit(n, anc):
         ctx.env = {}
-        if n.get('k') == 'local' and not isinstance(pat, L):
+        if n.get('k') == 'local' and not _wants_locals(pat):
             return          # a use of a let-bound value is not a second occurrence of the expression
         if pat.m(ctx, n):
             out.append((n, anc))
